@@ -146,7 +146,7 @@ def check_message_stories(mo):
 _KEPT = {'ro': None, 'stories': []}
 
 
-def check_kept(ro):
+def check_kept(ro, prop=PROP):
     """Story objects taken from ro.stories (and read) after the previous step of the same live
     running order: where the element they wrap is still in the running order, they must
     describe it as it is now."""
@@ -167,10 +167,15 @@ def check_kept(ro):
         if ok and not _body_eq(v, access.x_body(x)):
             fails.append(Failure(PROP, 'C17|kept-Story.body|stale', f'a Story object kept across a merge: body '
                                  f'{_showlib(v)}, its element now says {_show(access.x_body(x))}'))
+        ok, v = call(st_, 'items', fails, prop, 'kept Story')
+        want_ = [access._text(i, 'itemID') for i in x if i.tag == 'item']
+        if ok and v is not None and [i.id for i in v] != want_:
+            fails.append(Failure(prop, f'{prop}|kept-Story.items|stale', f'a Story object kept across a merge: items '
+                                 f'{[i.id for i in v]}, its element now holds {want_}', want_, [i.id for i in v]))
     try:
         _KEPT['stories'] = list(ro.stories)
         for st_ in _KEPT['stories']:
-            st_.script, st_.body
+            st_.script, st_.body, st_.items
     except Exception:
         _KEPT['stories'] = []
     return fails
